@@ -8,7 +8,7 @@ use serde_json::json;
 
 use crate::batch::{self, BCase, BatchResult};
 use crate::icase::{self, ICase};
-use crate::isa::{self, Core};
+use crate::isa::{self, Core, Opnd};
 use crate::report::{cov, machinery_fail, Report, Tier};
 use crate::sut::{self, Outcome};
 
@@ -187,6 +187,71 @@ pub fn run(tier: Tier) -> i32 {
     }
     stats.encodings.lock().unwrap().clear();
 
+    // 5. operands that are labels: the instruction lengths of this property (two words for
+    //    jmp/call and for lds/sts on cores with the 32-bit form, one on the reduced core) must be
+    //    the same in the layout pass and in the encoder, or every label after such an instruction
+    //    is off and the instruction naming it gets a wrong field
+    let mut n_label_programs = 0usize;
+    for (core, prefix, two_word) in [(Core::Full, "", vec!["jmp 0x1234", "call 0x2345", "lds r16, 0x0160", "sts 0x0161, r17"]), (Core::Reduced, REDUCED_PREFIX, vec!["lds r16, 0x60", "sts 0x61, r17"])] {
+        let one_word = ["nop", "ldi r18, 7", "inc r19"];
+        let mut items: Vec<(&str, Vec<u16>)> = vec![];
+        for t in two_word.iter().chain(one_word.iter()) {
+            let mut parts = t.splitn(2, ' ');
+            let m = parts.next().unwrap();
+            let ops: Vec<Opnd> = parts
+                .next()
+                .map(|r| {
+                    r.split(',')
+                        .map(|o| {
+                            let o = o.trim();
+                            if let Some(n) = o.strip_prefix('r') {
+                                Opnd::Reg(n.parse().unwrap())
+                            } else if let Some(h) = o.strip_prefix("0x") {
+                                Opnd::Imm(i64::from_str_radix(h, 16).unwrap())
+                            } else {
+                                Opnd::Imm(o.parse().unwrap())
+                            }
+                        })
+                        .collect()
+                })
+                .unwrap_or_default();
+            let w = isa::encode(core, m, &ops).unwrap_or_else(|| machinery_fail(&format!("label pass: reference rejects {}", t)));
+            items.push((t, w));
+        }
+        // every ordered triple of items, each labelled; then rjmp / ldi naming each label
+        let n = items.len();
+        for a in 0..n {
+            for b in 0..n {
+                for c in 0..n {
+                    let seq = [a, b, c];
+                    let mut src = String::from(prefix);
+                    let mut words: Vec<u16> = vec![];
+                    let mut addr = vec![];
+                    for (i, it) in seq.iter().enumerate() {
+                        addr.push(words.len() as i64);
+                        src.push_str(&format!("lab{}: {}\n", i, items[*it].0));
+                        words.extend(items[*it].1.iter());
+                    }
+                    for (i, la) in addr.iter().enumerate() {
+                        let here = words.len() as i64;
+                        src.push_str(&format!("rjmp lab{}\nldi r20, lab{}\n", i, i));
+                        words.extend(isa::encode(core, "rjmp", &[Opnd::Imm(la - (here + 1))]).unwrap());
+                        words.extend(isa::encode(core, "ldi", &[Opnd::Reg(20), Opnd::Imm(*la)]).unwrap());
+                    }
+                    let want = isa::words_to_bytes(&words);
+                    let o = sut::build_str(&src);
+                    n_label_programs += 1;
+                    stats.cases.fetch_add(1, Ordering::Relaxed);
+                    let ok = matches!(&o, Outcome::Ok(bu) if bu.code == want);
+                    if !ok {
+                        let key = format!("C01/label-operand/core={}/after={}", if core == Core::Full { "full" } else { "reduced" }, items[a].0.split(' ').next().unwrap());
+                        rep.violation(&key, || format!("labels after `{}` / `{}` / `{}`: the instructions naming them must assemble to {} but {}", items[a].0, items[b].0, items[c].0, sut::hex(&want), match &o { Outcome::Ok(bu) => format!("the image is {}", sut::hex(&bu.code)), other => format!("{}", other.to_json()) }), || json!({"kind": "build_str", "source": src, "expected": {"result": "ok", "code": sut::hex(&want)}, "observed": o.to_json()}));
+                    }
+                }
+            }
+        }
+    }
+
     let total = stats.cases.load(Ordering::Relaxed);
     rep.guard(n_small > 90_000, "small operand spaces shrank");
     rep.guard(ncls >= 110 && ncls <= 130, "unexpected number of mnemonic classes");
@@ -211,7 +276,7 @@ pub fn run(tier: Tier) -> i32 {
         "rule": "every legal operand tuple of every mnemonic (full core: all small spaces + lds/sts 32x2^16 + jmp/call 2^22; reduced core: lds/sts 16x128), packed 4096 per program and localised one-per-build on any mismatch; distinct_nontrivial = distinct reference encodings among the single-instruction cases (every case emits >= 1 word, so all are non-trivial)",
         "exhaustive": true,
         "space": {"small_full_core": n_small, "big_full_core": icase::BIG_TOTAL, "reduced_core": n_red,
-                  "adjacent_class_pairs": n_pairs, "adjacent_class_triples": n_triples, "mnemonic_classes": ncls},
+                  "adjacent_class_pairs": n_pairs, "adjacent_class_triples": n_triples, "mnemonic_classes": ncls, "label_operand_programs": n_label_programs},
         "batches": stats.batches.load(Ordering::Relaxed),
         "batches_localised_one_per_build": stats.localised.load(Ordering::Relaxed),
         "reference_self_check": {"first_words_decoded": sc.decoded_first_words, "first_words_unknown": sc.unknown_first_words, "roundtrips": sc.roundtrips},
